@@ -10,6 +10,9 @@ pub mod c10;
 pub mod c12;
 pub mod c13;
 pub mod c14;
+pub mod c15e;
+pub mod c18e;
+pub mod c19e;
 pub mod c20;
 
 pub fn scenario_for(property: &str) -> Option<ScenarioFn> {
@@ -22,6 +25,9 @@ pub fn scenario_for(property: &str) -> Option<ScenarioFn> {
         "C12" => Some(c12::run),
         "C13" => Some(c13::run),
         "C14" => Some(c14::run),
+        "C15e" => Some(c15e::run),
+        "C18e" => Some(c18e::run),
+        "C19e" => Some(c19e::run),
         "C20" => Some(c20::run),
         _ => None,
     }
@@ -35,7 +41,21 @@ pub fn budget(property: &str, tier: &str) -> (u64, u64, u64) {
         "C08" => (600_000, 60, 900),
         "C02" if quick => (20_000, 30, 60),
         "C10" if quick => (16_000, 30, 60),
+        "C15e" if quick => (20_000, 30, 40),
+        "C18e" if quick => (30_000, 30, 30),
+        "C19e" if quick => (20_000, 30, 40),
+        "C15e" | "C18e" | "C19e" => (400_000, 60, 600),
+        "C06" if quick => (30_000, 30, 60),
+        "C07" if quick => (20_000, 30, 60),
+        "C12" if quick => (8_000, 30, 60),
+        "C13" if quick => (30_000, 30, 60),
+        "C14" if quick => (30_000, 30, 60),
+        "C20" if quick => (10_000, 30, 60),
+        "C02" => (600_000, 60, 900),
+        "C10" => (600_000, 60, 900),
+        "C12" => (200_000, 60, 900),
+        "C20" => (300_000, 60, 900),
         _ if quick => (4000, 30, 75),
-        _ => (200_000, 60, 900),
+        _ => (800_000, 60, 900),
     }
 }
